@@ -83,18 +83,18 @@ var singleLetters = []string{"A", "B", "C", "X", "Y"}
 
 // NamedOpts steer GenNamedStruct.
 type NamedOpts struct {
-	MaxDepth, MaxWidth int
-	Leaf               func(r *coqfmt.Rng) reflect.Type // leaf type palette
-	Inits              []string                         // the source's initialism list
-	TagNum, TagDen     int                              // probability of a `dials` tag on a field
-	SrcTags            []string                         // source-specific tag keys (e.g. dialsenv) put on leaves
-	SrcTagNum, SrcTagDen int
-	SrcTagGen          func(r *coqfmt.Rng) string
-	AliasKeys          []string // tag keys that may get a `<key>alias` companion (empty: no aliases)
-	AliasNum, AliasDen int
-	Embedded           bool
-	Skipped            bool
-	SingleLetterNum, SingleLetterDen int // probability of a single-letter token (finding 8 shapes)
+	MaxDepth, MaxWidth               int
+	Leaf                             func(r *coqfmt.Rng) reflect.Type // leaf type palette
+	Inits                            []string                         // the source's initialism list
+	TagNum, TagDen                   int                              // probability of a `dials` tag on a field
+	SrcTags                          []string                         // source-specific tag keys (e.g. dialsenv) put on leaves
+	SrcTagNum, SrcTagDen             int
+	SrcTagGen                        func(r *coqfmt.Rng) string
+	AliasKeys                        []string // tag keys that may get a `<key>alias` companion (empty: no aliases)
+	AliasNum, AliasDen               int
+	Embedded                         bool
+	Skipped                          bool
+	SingleLetterNum, SingleLetterDen int      // probability of a single-letter token (finding 8 shapes)
 	OddTags                          []string // dials tags outside the word styles (only separators, leading/trailing separators, empty)
 	OddTagNum, OddTagDen             int      // probability that a tagged field gets one of them
 }
